@@ -21,6 +21,15 @@ for _p in ("C09", "C18"):
                           "collection is due (all expired, or all but five) or an explicit GC(), then resumptions and Puts while the ring "
                           "shrinks; all of them also in the finalizer family")
 
+# round 7: the exported field GCInterval assigned on a replayer in use
+for _p in ("C09", "C18"):
+    PROPS[_p]["level_text"] += (" The histories of the model, of the specification and of the theorems (universally quantified over them) contain, "
+                                "next to Put / Replay / GC, assignments to the exported field GCInterval between two operations (VSetGCI): the "
+                                "interval is part of the state and shouldGC reads the current value at every Put, as in replay.go.")
+    PROPS[_p]["rule"] += ("; operation 'GCInterval := g' (lowered, raised, switched off) in the exhaustive alphabet, in the random histories and in a "
+                          "directed sweep: from every interval to every interval - before the first Put, after two Puts, after a Put-triggered "
+                          "or an explicit collection - then pauses of every relevant length and Puts")
+
 # round 7: accepted and rejected Puts interleaved on one replayer (heap family)
 PROPS["C19"]["rule"] += ("; accepted and rejected Puts through one replayer in every order up to length 5 (a message without ID, a clone with an "
                          "explicit ID, the copy the last accepted Put returned), all four replayers; the random sequences follow which members "
